@@ -24,7 +24,11 @@ META = dict(
          "proportional to weight' is a driver statistic (nodes with >= 50 virtual nodes, flagged beyond a factor 2, "
          "recorded in evidence). Ring-position collisions are outside the claim. cache.New / kv.New are driven "
          "over two to four in-process redis servers with 5-9 weight vectors: the server observed to hold a key "
-         "(miniredis inspection) has positive weight and stays the same across Set, Del+Set, batch Del+Set. Bounds: 3-4 nodes, weights {0,1,50,100}, replicas {0,50,100,200}, base 100 and 200.",
+         "(miniredis inspection) has positive weight and stays the same across Set, Del+Set, batch Del+Set. The same "
+         "contract is also validated on rings built with NewCustomConsistentHash and a caller-supplied hash function "
+         "(share statistic not applied there). BEYOND THE STATEMENT (which does not quantify over concurrency): Get "
+         "concurrent with Add*/Remove runs under -race; only a data-race report or a panic is reported "
+         "(key C13:data-race), never a contract violation. Bounds: 3-4 nodes, weights {0,1,50,100}, replicas {0,50,100,200}, base 100 and 200.",
     technique="TLA+ contract spec + TLC-generated histories + TLC trace validation of the real ring's lookups",
     design="4/C13")
 
@@ -96,10 +100,10 @@ def split_traces(prefix):
     return hists
 
 
-def record(ctx, binp, label, cases_path, base, pop, shards=16):
+def record(ctx, binp, label, cases_path, base, pop, shards=16, hashfn=""):
     prefix = os.path.join(ctx.build, "trace-" + label)
     cnt, bad = ctx.replay(PKG, OVERLAY, RUN, cases_path, label=label, binp=binp, shards=shards,
-                          env=dict(VERIF_BASE=base, VERIF_POP=pop, VERIF_TRACE=prefix), source="record")
+                          env=dict(VERIF_BASE=base, VERIF_POP=pop, VERIF_TRACE=prefix, VERIF_HASH=hashfn), source="record")
     if bad:
         raise core.Infra("C13 recorder reported verdicts (it must only record): %s" % bad[:2])
     return split_traces(prefix)
@@ -272,6 +276,24 @@ def cluster(ctx):
     validate(ctx, "cluster", hists, tspec(consts(ALL_NODES, [0], [0], 100)), path)
 
 
+# ------------------------------------------------------------------------------- concurrency (beyond the statement)
+
+def race(ctx):
+    """Lookups concurrent with Add/Remove under the race detector.  The statement does not quantify over
+    concurrency: nothing is compared; only a data-race report or a panic is a finding (key C13:data-race)."""
+    rc, out = ctx.go_test(PKG, OVERLAY, "^TestVerifC13Race$", race=True, name="race", timeout=300, extra=["-v"],
+                          env=dict(VERIF_ROUNDS=(300 if ctx.quick else 3000)))
+    if "DATA RACE" in out or "panic:" in out or "fatal error:" in out:
+        i = min(x for x in (out.find("DATA RACE"), out.find("panic:"), out.find("fatal error:")) if x >= 0)
+        ctx.disagree("C13:data-race", "concurrent Get with Add/AddWithWeight/AddWithReplicas/Remove on one ring under -race "
+                     "(beyond the statement: reported as a race/panic, not as a contract violation): " + out[max(0, i - 100):i + 1500],
+                     case=None, source="race")
+        return
+    if rc != 0 or "C13RACE" not in out:
+        raise core.Infra("race driver failed rc=%s\n%s" % (rc, out[-2000:]))
+    ctx.notes["race_run"] = out[out.find("C13RACE"):].split("\n")[0]
+
+
 # ------------------------------------------------------------------------------- run
 
 def run(ctx):
@@ -281,27 +303,33 @@ def run(ctx):
     if ctx.quick:
         plans = [("g3", ALL_NODES[:3], W, R, 100, 3, None, 500),
                  ("g2b", ALL_NODES, W, R, 200, 2, None, 2000),
-                 ("s30", ALL_NODES, W, R, 100, 30, 200, 5000)]
+                 ("s30", ALL_NODES, W, R, 100, 30, 200, 5000),
+                 ("f2:fnv", ALL_NODES, W, R, 100, 2, None, 500)]
     else:
         plans = [("g3", ALL_NODES, W, R, 100, 3, None, 1000),
                  ("g3b", ALL_NODES[:3], W, R, 200, 3, None, 1000),
                  ("g4", ALL_NODES[:3], [0, 100], [0, 50], 100, 4, None, 500),
                  ("s30", ALL_NODES, W, R, 100, 30, 2000, 4000),
-                 ("s30b", ALL_NODES, W, R, 200, 30, 500, 4000)]
+                 ("s30b", ALL_NODES, W, R, 200, 30, 500, 4000),
+                 ("f3:fnv", ALL_NODES[:3], W, R, 100, 3, None, 500),
+                 ("fs30:fnv", ALL_NODES, W, R, 200, 30, 300, 2000)]
     ctx.exhaustive = True
     acc = dict(min=9.9, max=0.0, seen=set())
     for name, nodes, w, r, base, maxops, sim, pop in plans:
+        name, _, hashfn = name.partition(":")      # ":fnv" = NewCustomConsistentHash with a caller-supplied hash function
         cases = gen(ctx, name, nodes, w, r, base, maxops, simulate=sim)
         if not cases:
             raise core.Infra("generator %s produced no history" % name)
         path, cnt = ctx.write_cases(name + ".ndjson", cases)
         ctx.samples += core.sample_of(cases, 1)
-        hists = record(ctx, binp, name, path, base, pop)
+        hists = record(ctx, binp, name, path, base, pop, hashfn=hashfn)
         if len(hists) != cnt:
             raise core.Infra("%s: %d histories generated, %d recorded" % (name, cnt, len(hists)))
         validate(ctx, name, hists, tspec(consts(ALL_NODES, w, r, base)), path)
-        shares(ctx, hists, base, acc)
+        if not hashfn:
+            shares(ctx, hists, base, acc)
     cluster(ctx)
+    race(ctx)
     ctx.notes["share_ratio_min_max"] = [round(acc["min"], 3), round(acc["max"], 3)]
     ctx.notes["share_memberships_measured"] = len(acc["seen"])
     ctx.states = sum(t["distinct"] for t in ctx.tlc_runs)
